@@ -34,17 +34,19 @@ pub proof fn lemma_fwd_val_inj(c: Seq<u8>, d: Seq<u8>)
 // a window and its reverse complement give the same canonical k-mer; the reported middle base is the same,
 // except when the k-mer is its own reverse complement: then both are flagged palindromic and the two middle
 // bases are complements of each other, i.e. fall in the same class {A,T} / {C,G} -> same stored W / S / N
-pub proof fn lemma_canon_strand(c: Seq<u8>)
-    requires codes_ok(c), c.len() % 2 == 1, 5 <= c.len() <= ${KMAX}
+pub proof fn lemma_canon_strand(c: Seq<u8>, a: (${W}, u8, bool), b: (${W}, u8, bool))
+    requires
+        codes_ok(c), c.len() % 2 == 1, 5 <= c.len() <= ${KMAX},
+        canon_ok(c, true, a),          // what the iterator may report on the window
+        canon_ok(rcc(c), true, b),     // ... and on its reverse complement
     ensures ({
-        let a = canon(c, true);
-        let b = canon(rcc(c), true);
         let h = (c.len() - 1) / 2;
         &&& a.0 == b.0
         &&& palin(c) == (fwd_val(c) == fwd_val(rcc(c)))
         &&& palin(rcc(c)) == palin(c)
         &&& !palin(c) ==> a.1 == b.1
-        &&& palin(c) ==> a.1 == c[h] && b.1 == c[h] ^ 2 && ((a.1 == 0 || a.1 == 2) == (b.1 == 0 || b.1 == 2))
+        &&& palin(c) ==> (a.1 == c[h] || a.1 == c[h] ^ 2) && (b.1 == c[h] || b.1 == c[h] ^ 2)
+                && ((a.1 == 0 || a.1 == 2) == (b.1 == 0 || b.1 == 2))
     })
 {
     let h = (c.len() - 1) / 2;
@@ -56,7 +58,7 @@ pub proof fn lemma_canon_strand(c: Seq<u8>)
     lemma_fwd_val_inj(r, c);
     let x = c[h];
     assert(r[h] == c[c.len() - 1 - h] ^ 2);
-    assert(x < 4 ==> ((x == 0 || x == 2) == ((x ^ 2) == 0 || (x ^ 2) == 2))) by(bit_vector);
+    assert(x < 4 ==> ((x == 0 || x == 2) == ((x ^ 2) == 0 || (x ^ 2) == 2)) && (x ^ 2) ^ 2 == x) by(bit_vector);
 }
 
 // ---- reverse-complementing a whole record mirrors its windows
